@@ -633,10 +633,18 @@ fn logical_or<'s>(input: &mut &'s str) -> PResult<(), SemverParseError<&'s str>>
 fn range<'s>(input: &mut &'s str) -> PResult<Vec<BoundSet>, SemverParseError<&'s str>> {
     // TODO: loose parsing means that `1.2.3 foo` translates to `1.2.3`, so we
     // need to do some stuff here to filter out unwanted BoundSets.
-    Parser::map(
-        separated(0.., simple, space1),
-        |bs: Vec<Option<BoundSet>>| intersect_all(&bs),
-    )
+    alt((
+        // range ::= hyphen | simple ( ' ' simple ) * | ''
+        // The empty range is `*`.
+        Parser::map(preceded(space0, peek(alt((literal("||"), eof)))), |_| {
+            let star = BoundSet::at_least(Predicate::Including((0, 0, 0).into()));
+            intersect_all(&[star])
+        }),
+        Parser::map(
+            separated(0.., simple, space1),
+            |bs: Vec<Option<BoundSet>>| intersect_all(&bs),
+        ),
+    ))
     .parse_next(input)
 }
 
